@@ -561,6 +561,15 @@ def ristrettoOp (op : String) (args : List String) : M Resp := do
   | "ris.double_compress_batch", [l] => do
     let ps ← optPointList true false l
     ok [fmtList (ps.map fun p => risOut (EPt.double (p.getD EPt.zero)))]
+  | "ris.double_compress_batch_rep", [l] => do
+    -- items `ENC:j`: the representative index j (0..3) does not change the group element
+    let items := parseList l
+    let encs ← items.mapM fun s =>
+      match s.splitOn ":" with
+      | [e, j] => if j == "0" || j == "1" || j == "2" || j == "3" then pure e else badreq
+      | _ => badreq
+    let ps ← optPointList true false (if encs.isEmpty then "-" else ",".intercalate encs)
+    ok [fmtList (ps.map fun p => risOut (EPt.double (p.getD EPt.zero)))]
   | "ris.msm_ct", [s, p] => msmOp true false false s p
   | "ris.msm_vt", [s, p] => msmOp true false false s p
   | "ris.msm_opt", [s, p] => msmOp true true false s p
